@@ -90,16 +90,12 @@ var recipeSites = []Site{
 	{"stream.readChunk.ReadFull.buf", pkgStream, "Reader", "readChunk", "arg:io.ReadFull:1", []string{"C05", "C12"}},
 	{"stream.readChunk.ReadFull.src", pkgStream, "Reader", "readChunk", "arg:io.ReadFull:0", []string{"C05", "C12"}},
 	// header
-	{"format.Header.Marshal.mac", pkgFormat, "Header", "Marshal", "arg:fmt.Fprintf#1:2", []string{"C05", "C07"}},
-	{"format.Header.Marshal.macfmt", pkgFormat, "Header", "Marshal", "arg:fmt.Fprintf#1:1", []string{"C05", "C07"}},
-	{"format.MarshalWithoutMAC.intro", pkgFormat, "Header", "MarshalWithoutMAC", "arg:io.WriteString:1", []string{"C05", "C07"}},
-	{"format.MarshalWithoutMAC.footer", pkgFormat, "Header", "MarshalWithoutMAC", "arg:fmt.Fprintf:2", []string{"C05", "C07"}},
-	{"format.Stanza.Marshal.prefix", pkgFormat, "Stanza", "Marshal", "arg:invoke (io.Writer).Write:1", []string{"C05", "C07"}},
-	{"format.Stanza.Marshal.argsep", pkgFormat, "Stanza", "Marshal", "arg:io.WriteString#1:1", []string{"C05", "C07"}},
-	{"format.Stanza.Marshal.eol", pkgFormat, "Stanza", "Marshal", "arg:io.WriteString#2:1", []string{"C05", "C07"}},
+	{"format.Stanza.Marshal.emits", pkgFormat, "Stanza", "Marshal", "emits:1", []string{"C05", "C07", "C01"}},
+	{"format.Header.MarshalWithoutMAC.emits", pkgFormat, "Header", "MarshalWithoutMAC", "emits:1", []string{"C05", "C07", "C03"}},
+	{"format.Header.Marshal.emits", pkgFormat, "Header", "Marshal", "emits:1", []string{"C05", "C07"}},
+	{"plugin.writeStanza.emits", pkgPlugin, "", "writeStanza", "emits:0", []string{"C16"}},
+	{"plugin.writeStanzaWithBody.emits", pkgPlugin, "", "writeStanzaWithBody", "emits:0", []string{"C16"}},
 	{"format.Stanza.Marshal.encoder", pkgFormat, "Stanza", "Marshal", "arg:(*format.WrappedBase64Encoder).Write:0", []string{"C05", "C07"}},
-	{"format.Stanza.Marshal.body", pkgFormat, "Stanza", "Marshal", "arg:(*format.WrappedBase64Encoder).Write:1", []string{"C05", "C07"}},
-	{"format.Stanza.Marshal.finaleol", pkgFormat, "Stanza", "Marshal", "arg:io.WriteString#3:1", []string{"C05", "C07"}},
 	{"format.DecodeString.result", pkgFormat, "", "DecodeString", "ret:0", []string{"C05", "C07"}},
 	// armor
 	{"armor.NewWriter.result", pkgArmor, "", "NewWriter", "ret:0", []string{"C05", "C08"}},
